@@ -131,17 +131,24 @@ def whole_case(arg):
         W = lambda n, t: open(os.path.join(src, n), 'w').write(t)
         W('L1a.c', 'int f_1(void){return 1;}\n')
         W('L1b.c', 'int g_1(void){return 100;}\n')
+        W('L2a.c', 'int f_2(void){return 2;}\n')
+        W('L2b.c', 'int g_2(void){return 200;}\n')
         W('S.c', 'int s(void){return 5;}\n')
         W('main.c', '#include <stdio.h>\nint f_1(void);int g_1(void);'
-          'int s(void);int main(void){printf("%d\\n", f_1()+g_1()+s());'
-          'return 0;}\n')
+          'int f_2(void);int g_2(void);'
+          'int s(void);int main(void){printf("%d\\n", f_1()+g_1()+f_2()+'
+          'g_2()+s());return 0;}\n')
         W('main2.c', 'int main(void){return 0;}\n')
         W('build.bfg', "project('p')\n"
           "L1 = static_library(%r, ['L1a.c', 'L1b.c'])\n"
-          "S = shared_library(%r, ['S.c'], libs=[whole_archive(L1)])\n"
+          "L2 = static_library(%r, ['L2a.c', 'L2b.c'])\n"
+          "S = shared_library(%r, ['S.c'], libs=[whole_archive(L1), "
+          "whole_archive(L2)])\n"
           "executable(%r, ['main.c'], libs=[S])\n"
-          "executable(%r, ['main2.c'], libs=[whole_archive(L1)])\n" % (
-              at(1, 'L1'), at(2, 'S'), at(0, 'prog'), at(0, 'prog2')))
+          "executable(%r, ['main2.c'], libs=[whole_archive(L1), "
+          "whole_archive(L2)])\n" % (
+              at(1, 'L1'), at(3, 'L2'), at(2, 'S'), at(0, 'prog'),
+              at(0, 'prog2')))
         env = tool_env()
         bld = os.path.join(root, 'build')
         rc, out = run(['/venv/bin/bfg9000', 'configure', bld,
@@ -161,11 +168,12 @@ def whole_case(arg):
                 val = int(out.strip())
             except ValueError:
                 val = -1
-            return {'ev': 'RunRaw', 'exit': rc, 'out': val, 'want': 106,
+            return {'ev': 'RunRaw', 'exit': rc, 'out': val, 'want': 308,
                     'note': out[-200:] if rc else ''}
         events.append(runprog(bld))
         rc, out = run(['nm', os.path.join(bld, at(0, 'prog2'))], env=env)
-        events.append({'ev': 'Symbols', 'want': ['f_1', 'g_1'], 'defined': [
+        events.append({'ev': 'Symbols', 'want': ['f_1', 'g_1', 'f_2', 'g_2'],
+                       'defined': [
             ln.split()[-1] for ln in out.splitlines()
             if len(ln.split()) == 3 and ln.split()[1] == 'T']})
         moved = os.path.join(root, 'elsewhere', 'moved build')
